@@ -178,6 +178,24 @@ CHECKS = {
              "handling is in the model only for ASCII authorities without brackets.",
         tech="Lean 4 invariant proof over the request loop + refinement to a per-href spec + differential correspondence",
         ref="5/C17"),
+    "C18": dict(
+        text="Proved in Lean: create_href with a base decodes to base/ + href for every clean directory base and every "
+             "relative path of directory-entry names, whatever their characters (quoted-form urljoin, on the urllib "
+             "model); hence current-user-principal decodes to mount-point/ + principal/ for every mount point and "
+             "principal path, the home sets decode to principal/calendars/ and principal/contacts/, and each is again a "
+             "clean directory, so the Depth 1 member hrefs (C16) apply. On the world model: a start (--defaults, "
+             "--autocreate, the wsgi.py start-up) keeps every existing repository with its members, history and "
+             "metadata, only adds fresh repositories where nothing was, any sequence of restarts in any mix of modes "
+             "preserves the data, and the first --defaults start makes the principal, both home sets, the default "
+             "calendar, address book and inbox exist. Tied to /repo by predicting the exact text of every discovery "
+             "href and the exact set of repositories (type + metadata bytes) on disk after every start, over front "
+             "ends x route prefixes x principal paths x start sequences, with a client that follows only returned hrefs.",
+        note="a principal path whose first segment reads as a URL scheme ('x:y/…') or that lacks the leading '/' is "
+             "outside the hypotheses (and outside the property's quantifier): create_href takes it for an absolute "
+             "URL / the principal is not recognised; aiohttp's routing and the WSGI server's mounting are exercised, "
+             "not modelled.",
+        tech="Lean 4 proof over the urllib model (href algebra) + invariant proof over starts + differential correspondence",
+        ref="5/C18"),
 }
 
 NOT_YET = {}
